@@ -160,7 +160,7 @@ class C14(PropBase):
         # the table as the reader itself prints it (display on, a refresh after every frame): the groups follow the letters of
         # ALL occurrences of -i (a+w stands for -i a -i w)
         import re as _re
-        for spec in ["a+w", "ae+ew", "e+A", "s+x", "a+A+e+w+s", "aw+aw", "aAews", "x", "w", "A+s"]:
+        for spec in ["a+w", "ae+ew", "e+A", "s+x", "a+A+e+w+s", "aw+aw", "aAews", "x", "w", "A+s", "", "+", "+a"]:     # "" is -i '' : no group at all
             a1 = 0x480100
             frames = [F.df11(5, a1, 0), F.df17(5, a1, F.me_ident(4, 3, F.callsign_codes("GRP1"))), F.df5(0, 0, 0, F.id13_of_squawk(1, 2, 3, 4), a1)]
             ops = ["reset", gen.cfg_op(show=1, update=-1, groups=spec, order="", delete_after=600)] + gen.seg(frames) + ["dump"]
